@@ -612,7 +612,7 @@ func TestFloat32Sweep(t *testing.T) {
 		return
 	}
 	// quick: a seed-dependent odd-stride walk (distinct patterns) + windows around the known patterns
-	n := uint64(pbt.N(8000000, 8000000))
+	n := uint64(pbt.N(5000000, 5000000))
 	seed := pbt.DeriveSeed("float32-sample")
 	start := uint32(seed)
 	const stride = 0x9e3779b1
